@@ -15,7 +15,9 @@ CHECKS = {
     text='(a) get_line_number executed from MIR on every text of up to 5 (quick) / 7 (thorough) characters — class newline/other per path, '
          'byte width 1..4 per character and the offset symbolic — against 1 + #line feeds before the offset, Z3 deciding each path for all '
          'widths and token offsets; (b) the three analyze_for_* functions with parser, detectors and line function uninterpreted: the '
-         'returned set equals {line(start)} of the detector\'s locations for the same file text, for every pattern.',
+         'returned set equals {line(start)} of the detector\'s locations for the same file text, for every pattern; (c) on the compiled code: 21 layouts of a '
+         'probe file through analyze_for_* and, as files of a directory, through analyze_dir (lines = lines of the detector\'s own locations), and on the '
+         'offset-preserving layouts the reported lines are held against the lines on which the nodes flagged by the oracle of DESIGN section 8 begin.',
     note='Regex by contract (captures_iter of the pattern \\n yields the line-feed offsets), validated natively on every path; '
          'BTreeSet/HashSet contracts. Outside: texts longer than the bound; the parser\'s Loc.start.',
     technique='symbolic execution of MIR + Z3 (bounded text length), native replay', design='6/C02'),
@@ -87,7 +89,8 @@ CHECKS = {
  'C12': dict(
     text='Same encoding as C11 on the families the property names: all 16 subsets of the vulnerability patterns x file/line multiplicities (total printed = '
          'number of entries listed; a severity heading iff a finding of that severity exists; every vulnerability under its own heading), optimisation totals '
-         'with many entries, and all 8 combinations of empty / non-empty categories in generate_report.',
+         'with many entries, all 8 combinations of empty / non-empty categories in generate_report, and the compiled binary for all 8 combinations of categories '
+         'with findings (entries and category part present iff the category has findings).',
     note='The overview functions are executed on a SYMBOLIC total and must render exactly its decimal digits between two constant texts. Severity table taken '
          'from the property text. Every path replayed natively.',
     technique='symbolic execution of MIR with structured strings + Z3, native replay of every path', design='6/C12'),
@@ -113,7 +116,8 @@ CHECKS = {
          'with a SYMBOLIC casing mask (all 2^len casings at once), and on a symbolic unknown name (Z3 strings: every accepted string is a documented name); distinct '
          'names -> distinct patterns; every default pattern has a documented name. Opts::new executed from the BINARY\'s MIR with clap / toml / fs / exit stubbed by '
          'arbitrary values: patterns = the configured lists in order (all patterns without --toml), directory = --path ?: toml path ?: ./contracts, an unknown name or '
-         'a missing ./contracts fails the run; main() builds the options before anything is written.',
+         'a missing ./contracts fails the run; main() builds the options before anything is written; the compiled binary for --path x configured path x ./contracts, '
+         'each readable or not: only files of the directory the property names are listed.',
     note='Native confirmation with the real opts.rs (opts_probe binary) and the real solstat binary. Outside: clap\'s and toml\'s own parsing.',
     technique='symbolic execution of MIR (library + binary) + Z3 strings / casing masks, native replay', design='6/C14'),
  'C15': dict(category='model_checking',
